@@ -29,7 +29,10 @@ struct bio_method_st {
 struct bio_st { bio_method_st const *method = nullptr; void *data = nullptr; int init = 0; int flags = 0; };
 struct ssl_method_st { int server; };
 struct ssl_ctx_st { int refs = 1; long mode = 0; };
-struct ssl_st { BIO *rbio = nullptr, *wbio = nullptr; int last_err = 0; bool init = false, server = false, started = false; };
+struct ssl_st { BIO *rbio = nullptr, *wbio = nullptr; int last_err = 0; bool init = false, server = false, started = false;
+                long mode = 0; const void *pend_buf = nullptr; size_t pend_len = 0; };
+
+static unsigned long g_err_queue = 0;     // see ERR_* below
 
 namespace fakessl {
 std::deque<std::vector<long long>> script;
@@ -86,6 +89,7 @@ static std::pair<long long, long long> engine(SSL *ssl, int call, char *rbuf, ch
   ssl->init = init == 1;
   ssl->last_err = static_cast<int>(err);
   if(err == SSL_ERROR_SYSCALL) errno = EIO;
+  if(err == SSL_ERROR_SSL && call != 3) g_err_queue = 0x0A00009Cul;   // (a failing SSL_shutdown leaves an entry too in OpenSSL; not emulated: the destructor swallows what follows)
   vos::log(40, {call, static_cast<long long>(size), res, err, init});
   (void)rbuf;
   return {res, err};
@@ -96,8 +100,18 @@ extern "C" {
 
 // ---- library / error strings ----
 int OPENSSL_init_ssl(uint64_t, const OPENSSL_INIT_SETTINGS *) { return 1; }
-const char *ERR_reason_error_string(unsigned long) { return "scripted TLS engine error"; }
-void ERR_print_errors_cb(int (*)(const char *, size_t, void *), void *) {}
+// OpenSSL's per-thread error queue, as far as the glue can observe it: a fatal SSL error leaves an entry; SSL_get_error() reports
+// SSL_ERROR_SSL for ANY non-positive result while the queue is not empty; printing / fetching / clearing empties it.
+const char *ERR_reason_error_string(unsigned long e) { return e > 255 ? "scripted TLS engine error" : nullptr; }
+void ERR_print_errors_cb(int (*cb)(const char *, size_t, void *), void *u)
+{
+  if(g_err_queue && cb) { static char const msg[] = "error:0A00009C:scripted engine\n"; cb(msg, sizeof(msg) - 1, u); }
+  g_err_queue = 0;
+}
+unsigned long ERR_peek_last_error(void) { return g_err_queue; }
+unsigned long ERR_peek_error(void) { return g_err_queue; }
+unsigned long ERR_get_error(void) { auto e = g_err_queue; g_err_queue = 0; return e; }
+void ERR_clear_error(void) { g_err_queue = 0; }
 
 // ---- methods and contexts ----
 const SSL_METHOD *TLS_client_method(void) { static ssl_method_st m{0}; return &m; }
@@ -129,7 +143,7 @@ void BIO_set_flags(BIO *b, int f) { b->flags |= f; }
 void BIO_clear_flags(BIO *b, int f) { b->flags &= ~f; }
 
 // ---- SSL ----
-SSL *SSL_new(SSL_CTX *ctx) { ++ctx->refs; auto *s = new ssl_st; (void)ctx; return s; }
+SSL *SSL_new(SSL_CTX *ctx) { ++ctx->refs; auto *s = new ssl_st; s->mode = ctx->mode; return s; }
 void SSL_free(SSL *s) { if(!s) return; delete s->rbio; if(s->wbio != s->rbio) delete s->wbio; delete s; }
 void SSL_set_bio(SSL *s, BIO *r, BIO *w) { s->rbio = r; s->wbio = w; S.tls_fds.insert(fakessl::fd_of(s)); }
 void SSL_set_connect_state(SSL *) {}
@@ -137,7 +151,7 @@ void SSL_set_accept_state(SSL *s) { s->server = true; }
 int SSL_in_before(const SSL *s) { return s->started ? 0 : 1; }
 int SSL_is_server(const SSL *s) { return s->server ? 1 : 0; }
 int SSL_is_init_finished(const SSL *s) { return s->init ? 1 : 0; }
-int SSL_get_error(const SSL *s, int) { return s->last_err; }
+int SSL_get_error(const SSL *s, int ret) { return (ret <= 0 && g_err_queue) ? SSL_ERROR_SSL : s->last_err; }
 
 int SSL_read(SSL *s, void *buf, int num)
 {
@@ -168,10 +182,21 @@ int SSL_write_ex(SSL *s, const void *buf, size_t num, size_t *written)
   } else if(!vos::check(2ull * static_cast<uint64_t>(fd), S.plain_out[fd], static_cast<char const *>(buf), num)) {
     vos::anomaly(1, fd, static_cast<long long>(S.plain_out[fd]));
   }
+  // OpenSSL's write-retry rule: a write that ended with WANT_READ / WANT_WRITE must be repeated with the same arguments; the buffer may
+  // only have moved if SSL_MODE_ACCEPT_MOVING_WRITE_BUFFER is set ("bad write retry" otherwise)
+  if(s->pend_buf && (num < s->pend_len || (buf != s->pend_buf && !(s->mode & SSL_MODE_ACCEPT_MOVING_WRITE_BUFFER)))) {
+    vos::anomaly(31, fd, static_cast<long long>(num));
+    s->last_err = SSL_ERROR_SSL;
+    g_err_queue = 0x0A00007Ful;
+    if(S.async_fds.count(fd) && !S.aq[fd].empty()) S.aq[fd].pop_front();
+    return -1;
+  }
   bool threw = true;
   struct OnExit { bool &threw; int fd; ~OnExit() { if(threw && S.async_fds.count(fd) && !S.aq[fd].empty()) S.aq[fd].pop_front(); } } guard{threw, fd};
   auto [res, err] = fakessl::engine(s, 2, nullptr, static_cast<char const *>(buf), num);
   threw = false;
+  if(res <= 0 && (err == SSL_ERROR_WANT_READ || err == SSL_ERROR_WANT_WRITE)) { s->pend_buf = buf; s->pend_len = num; }
+  else { s->pend_buf = nullptr; s->pend_len = 0; }
   if(res > 0) {
     *written = static_cast<size_t>(res);
     if(S.async_fds.count(fd)) {
